@@ -692,7 +692,7 @@ class OpRunner:
                 while fr is not None:
                     depth += 1
                     fr = fr.f_back
-                sys.setrecursionlimit(depth + int(op["reclimit"]) + int(self.w.spec.get("recursion_delta", 0)))
+                sys.setrecursionlimit(depth + max(16, int(op["reclimit"]) + int(self.w.spec.get("recursion_delta", 0))))
             try:
                 getattr(self, "op_" + kind)(op, res)
             finally:
